@@ -47,11 +47,17 @@ class Obligation:
     smt2: Optional[str] = None
 
 
-def _mk_solver(timeout_ms: int, mbqi: bool = False):
+def _mk_solver(timeout_ms: int, mbqi=False):
+    """mbqi: False | True | "noeq".  "noeq" = E-matching only AND no equation solving in the preprocessor:
+    z3's solve_eqs eliminates a constant c when `c = t` is asserted (typically the negated goal
+    `xs[i] == null`), which removes the only GROUND occurrence of t and leaves E-matching nothing to
+    instantiate `forall j. xs[j] != null` with - a trivial VC then comes back `unknown`."""
     s = z3.Solver()
     s.set("timeout", timeout_ms)
-    s.set("smt.mbqi", mbqi)
+    s.set("smt.mbqi", mbqi is True)
     s.set("smt.auto_config", False)
+    if mbqi == "noeq":
+        s.set("smt.solve_eqs", False)
     return s
 
 
@@ -227,6 +233,12 @@ def discharge(axioms: List[Any], obs: List[Obligation], timeout_s: int = 30,
             ob.time_s += dt
             if res == "unsat":
                 ob.status, ob.backend = "discharged", "z3/cone-of-influence-slice"
+        jobs = [(oid, t, 6000, "noeq") for oid, t in coi.items() if byid[oid].status != "discharged"]
+        for oid, res, dt, model, reason in p.imap_unordered(_worker, jobs, chunksize=1):
+            ob = byid[oid]
+            ob.time_s += dt
+            if res == "unsat":
+                ob.status, ob.backend = "discharged", "z3/cone-of-influence-slice/no-solve-eqs"
         sliced = {k: v for k, v in sliced.items() if byid[k].status != "discharged"}
     if sliced:
         jobs = [(oid, t, 5000, False) for oid, t in sliced.items()]
@@ -239,7 +251,7 @@ def discharge(axioms: List[Any], obs: List[Obligation], timeout_s: int = 30,
     obs = [ob for ob in obs_all if ob.status != "discharged"]
     # cover obligations only get the first short round: "not refutable quickly" is what they need
     rnd(obs, min(timeout_s, max(3, timeout_s / 6)), False, "z3")
-    for tmo, mb, tag in ((timeout_s / 3, True, "z3+mbqi"), (timeout_s, False, "z3"), (timeout_s, True, "z3+mbqi")):
+    for tmo, mb, tag in ((timeout_s / 3, "noeq", "z3/no-solve-eqs"), (timeout_s / 3, True, "z3+mbqi"), (timeout_s, False, "z3"), (timeout_s, True, "z3+mbqi")):
         sel = [ob for ob in open_() if not ob.expect_fail and not ob.low_budget]
         if sel and (retry_mbqi or not mb):
             rnd(sel, tmo, mb, tag)
